@@ -142,6 +142,33 @@ CHECKS = {
             'Trusted: formulas written from the table comments / property text in mc/checks/c13.py, pinned label tables '
             'mc/data/labels.json.  One genuine defect is recorded as a known finding (EnumBitmap22).',
             'DESIGN.md section 3, C13'),
+    'C14': ('model_checking',
+            'complete enumeration of the finite configuration space with instrumented reads on the real decoder',
+            'For every model configuration (serial tags x rated power x every subset of refused optional blocks x battery) '
+            'read_runtime_data() runs against the device model while every ProtocolResponse.read is observed '
+            '(position, requested, returned); every read must return exactly the bytes requested.  The same is computed '
+            'statically (documented sensor span versus the window of the request that fetched it) and both must agree.',
+            'Trusted: device model answers with exact-length frames; documented type sizes of mc/refdec.py.  Two sensors '
+            'of the MPPT block are recorded as known findings.',
+            'DESIGN.md section 3, C14'),
+    'C15': ('model_checking',
+            'complete enumeration of the finite configuration space against a register-file device model',
+            'Every model tag (one per predicate class in the quick tier) x rated power class x every subset of refused '
+            'optional blocks x battery present/absent x three consecutive calls, over UDP and a reduced product over TCP: '
+            'read_runtime_data() must succeed by the second call, its keys must equal the ids of sensors() right after '
+            'the call, fetched blocks must be present and refused blocks absent; the device also checks that every '
+            'request parses strictly and that no write function is sent.',
+            'Trusted: device model mc/devsim.py (refused ranges answer exception 2).',
+            'DESIGN.md section 3, C15'),
+    'C16': ('model_checking',
+            'BFS over capability-changing histories + sweep over every sensor id against a static register file',
+            'For representative models of every predicate class and several register-file fills, after every history of '
+            'runtime reads, single reads and device changes (battery appears/disappears, blocks become refused) up to the '
+            'depth bound, read_sensor(id) is called for every id of sensors() and compared with the bulk read of the '
+            'unchanged registers.',
+            'Trusted: device model; register file static between single and bulk read.  Sensors without a single-read '
+            'path (Calculated, EnumCalculated, EnumBitmap22) are recorded as known findings.',
+            'DESIGN.md section 3, C16'),
 }
 
 NOT_BUILT = 'check not built yet (planned, see DESIGN.md section 3)'
